@@ -722,7 +722,7 @@ impl<R, B, E> DynReader for SmlReader<R, B>
 where
     R: sml_rs::util::ByteSource<ReadError = E>,
     B: Buffer,
-    E: ErrNorm,
+    E: ErrNorm + sml_rs::util::ByteSourceErr,
 {
     fn call(&mut self, api: Api, target: Target) -> ROut {
         use sml_rs::parser::complete::File;
